@@ -51,6 +51,17 @@ def run_time(ctx, replay, key, mode, mc_quick, mc_thorough, rule, assumptions):
         for cfg in (mc_thorough if ctx.thorough() else mc_quick):
             # the three-constellation configuration has ~2*10^8 transitions: no coverage instrumentation for it
             ctx.tlc_mc("TimeTrack_MC", cfg, timeout=1700, coverage=False if "ggg" in cfg else None)
+        # 1b. no horizon: the per-constellation tracker keeps "state = function of the true time of the last
+        #     observation, reported time = true time" for ever (Apalache, integer time, real constants), and the
+        #     transcription it works on makes exactly the steps of the L1 model the traces are compared with (TLC)
+        for cfg in ("TimeTrack_IndEq_glo.cfg", "TimeTrack_IndEq_gps.cfg", "TimeTrack_IndEq_bds.cfg"):
+            ctx.tlc_mc("TimeTrack_IndEq", cfg, timeout=300)
+        ctx.apalache_inductive("TimeTrack_Ind", "ConstInitReal", "IndInit", "IndInv")
+        if ctx.thorough():
+            ctx.apalache_inductive("TimeTrack_Ind", "ConstInit", "IndInit", "IndInv")
+            ctx.apalache_inductive("TimeTrack_Ind", "ConstInitWeekGapOther", "IndInit", "IndInv")
+            ctx.apalache_inductive("TimeTrack_Ind", "ConstInitWeekGapGlonass", "IndInit", "IndInv", must_hold=False)
+            ctx.apalache_inductive("TimeTrack_Ind", "ConstInitNonStrict", "IndInit", "IndInv", must_hold=False)
         # 2. direction B: behaviours from the model (random + the counterexamples of the as-found deviations)
         beh = []
         for cfg in ("TimeTrack_Sim_found_lose.cfg", "TimeTrack_Sim_found_gal.cfg", "TimeTrack_Sim_found_init.cfg"):
